@@ -246,6 +246,9 @@ func awkwardCatalogue() []named {
 		{"nil-error-iface", nilerr},
 		{"init-only-cond", func() any { var c stackage.Condition; c.Init(); return c }()},
 		{"opless-cond", func() any { var c stackage.Condition; c.Init(); c.SetKeyword("k"); c.SetExpression("v"); return c }()},
+		{"emptykw-cond", stackage.Cond("", stackage.Ge, "value")},
+		{"oponly-cond", func() any { var c stackage.Condition; c.Init(); c.SetOperator(stackage.Ne); return c }()},
+		{"alias-cond", ACond(stackage.Cond("k", stackage.Eq, "v"))},
 		{"basic-stack", stackage.Basic().Push(1)},
 		{"alias-stack", AStack(stackage.And().Push("x"))},
 		{"ptr-alias-stack", func() any { a := AStack(stackage.And().Push("x")); return &a }()},
@@ -811,6 +814,35 @@ func cmdSweep(args []string) {
 			sw.asArgument(rm)
 		}
 	case "dead":
+		// Free on live receivers (writable and read-only): the handle must become
+		// zero exactly when the instance is not read-only
+		for _, rm := range append(liveStackMakers(), liveCondMakers()...) {
+			for _, ro := range []bool{false, true} {
+				for _, m := range methodsOf(rm.mk()) {
+					if m.Name != "Free" {
+						continue
+					}
+					reset(rm)
+					x := rm.mk()
+					if ro {
+						x = setRO(x)
+					}
+					sw.call("free", rm, holderOf(x), m, argSet{}, true, false)
+				}
+			}
+		}
+		// the Init()-only Condition: initialised but empty
+		for _, rm := range liveCondMakers() {
+			if rm.name != "cond-initonly" {
+				continue
+			}
+			for _, m := range methodsOf(rm.mk()) {
+				for _, as := range argSets(methodType(m), anysFor("initonly"), *limit) {
+					reset(rm)
+					sw.call("initonly", rm, holderOf(rm.mk()), m, as, true, false)
+				}
+			}
+		}
 		for _, rm := range deadMakers() {
 			for _, m := range methodsOf(rm.mk()) {
 				for _, as := range argSets(methodType(m), append(plainAnys(), awkwardCatalogue()[:12]...), *limit) {
@@ -891,6 +923,8 @@ func anysFor(mode string) []named {
 	switch mode {
 	case "dead":
 		return append(plainAnys(), awkwardCatalogue()[:12]...)
+	case "initonly":
+		return append(plainAnys(), awkwardCatalogue()...)
 	case "awkward":
 		return awkwardCatalogue()
 	}
@@ -958,7 +992,7 @@ func RunSweepReplay(r *SweepReplay) (bool, string) {
 		}
 		pre := Snap(h.Elem().Interface())
 		preText := LastSnapText
-		sw.call(ev.Mode, *rm, h, *m, *as, ev.Mode == "dead" || ev.Mode == "awkward", ev.Mode == "query")
+		sw.call(ev.Mode, *rm, h, *m, *as, ev.Mode == "dead" || ev.Mode == "awkward" || ev.Mode == "free" || ev.Mode == "initonly", ev.Mode == "query")
 		_ = pre
 		_ = Snap(h.Elem().Interface())
 		postText := LastSnapText
